@@ -99,6 +99,14 @@ def cases(ctx):
     for bi2, (fn, ol) in enumerate((("sha1", 20 * 1024 + 1), ("sha1", 20 * 2048 + 7), ("sha256", 32 * 1024 + 1), ("sha512", 64 * 1024 + 1))):
         if S == (9 + bi2) % N:
             yield {"k": "pbkdf2", "fn": fn, "password": gen.rbytes(r, 8).hex(), "salt": gen.rbytes(r, 8).hex(), "rounds": 1, "len": ol, "long_output": True}
+    # LONG passwords and salts, log-spaced (1 KiB .. 1 MiB and the neighbours of every power of two), for every PRF: a long password is
+    # pre-hashed with the PRF's OWN hash and nothing else; one round, evaluated with the reference
+    for li, L in enumerate(sorted(set(v for e_ in range(10, 21) for v in (2**e_ - 1, 2**e_, 2**e_ + 1, 3 * 2 ** (e_ - 1) + 5)))):
+        for fi, fn in enumerate(("sha1", "sha256", "sha512")):
+            if (li * 3 + fi) % N != S:
+                continue
+            yield {"k": "pbkdf2", "fn": fn, "password": gen.rbytes(r, L).hex(), "salt": gen.rbytes(r, 8).hex(), "rounds": 1 + (li & 1), "len": [20, 32, 64, 65][li % 4], "shape": "long_password"}
+            yield {"k": "pbkdf2", "fn": fn, "password": gen.rbytes(r, 9).hex(), "salt": gen.rbytes(r, L).hex(), "rounds": 1 + (li & 1), "len": [20, 32, 64, 65][li % 4], "shape": "long_salt"}
     # password / salt lengths around the HMAC block sizes, for every PRF
     for fn in ("sha1", "sha256", "sha512"):
         for pl in [0, 1, 55, 56, 63, 64, 65, 111, 112, 127, 128, 129, 200]:
@@ -269,7 +277,9 @@ def judge(ctx, case):
             ctx.viol("HMAC-%s differs from the reference (key %s block size)" % (case["fn"], "shorter than" if len(key) < bs else "equal to" if len(key) == bs else "longer than"), {"got": str(r.get("ok", r.get("panic")))[:200], "exp": exp})
     elif k == "pbkdf2":
         ctx.nontrivial()
-        if case.get("shape"):
+        if case.get("shape") in ("long_password", "long_salt"):
+            ctx.hit("pbkdf2_" + case["shape"])
+        elif case.get("shape"):
             ctx.hit("pbkdf2_zero_bytes_in_password")
         req = {"op": "pbkdf2", "fn": case["fn"], "password": case["password"], "rounds": case["rounds"], "len": case["len"]}
         if case["salt"] is not None:
@@ -293,6 +303,10 @@ def judge(ctx, case):
 
             ctx.hit("pbkdf2_output>1024_blocks")
             exp = hashlib.pbkdf2_hmac(case["fn"], bytes.fromhex(case["password"]), bytes.fromhex(case["salt"]), 1, case["len"]).hex()
+        elif case.get("shape") in ("long_password", "long_salt"):
+            import hashlib
+
+            exp = hashlib.pbkdf2_hmac(case["fn"], bytes.fromhex(case["password"]), bytes.fromhex(case["salt"]), case["rounds"], case["len"]).hex()
         elif case["rounds"] > 100000:
             import hashlib
 
